@@ -20,5 +20,6 @@ CONSTANTS
   BugContES = FALSE
   BugPadCredit = FALSE
   EncodeAtEnqueue = FALSE
+  BugZeroCostHeld = FALSE
 CONSTRAINT Emit
 CHECK_DEADLOCK FALSE
